@@ -16,10 +16,12 @@ STATES = ("connecting", "await_cer", "await_cea", "ready", "waiting_dwa", "disco
 REACTIONS = ("dpa_now", "dpa_later", "never", "close")
 
 
-def cfg_for(states, with_lost_persistent):
+def cfg_for(states, with_lost_persistent, extra=None):
     peers = []
     for i, st in enumerate(states):
         pc = {"name": f"peer{i + 1}.example.org"}
+        if extra == "late_cer" and st == "await_cer":
+            pc["idle_timeout"] = 1          # once identified (inside the shutdown window) it idles out quickly
         if st in ("connecting", "await_cea"):
             pc.update({"ips": [f"10.1.0.{i + 1}"], "persistent": True, "reconnect_wait": 600})
         if st == "waiting_dwa":
@@ -61,8 +63,9 @@ def setup(sc, states, with_lost):
 
 
 def run_case(case, chooser=None, window=None):
-    states, reaction, force, wt, newcomer_at, with_lost = case
-    cfg = cfg_for(states, with_lost)
+    states, reaction, force, wt, newcomer_at, with_lost = case[:6]
+    extra = case[6] if len(case) > 6 else None
+    cfg = cfg_for(states, with_lost, extra)
     plan = []
     for st in states:
         if st == "connecting":
@@ -93,6 +96,34 @@ def run_case(case, chooser=None, window=None):
             nw.world.points_on = False
         dpa_time = {}
         newcomers = []
+        queued = {}
+        if extra == "late_cer":
+            for i, st in enumerate(states):
+                if st == "await_cer":
+                    sc.apply(("m", idx[i], f"cer_p{i}"))       # its capabilities exchange completes inside the shutdown window
+                    n_frames[i] = len(sc.socks[idx[i]].out)
+        if extra == "backlog" and not force:
+            # output is still pending behind the DPR when the DPA arrives: the peer stops reading after the DPR,
+            # the application hands the node one more message for that connection
+            from diameter.message.commands import AccountingRequest
+            for i in ready_at_stop:
+                s = sc.socks[idx[i]]
+                conn = nw.conn_of(s.fs)
+                if conn is None:
+                    continue
+                s.fs.send_blocked = True
+                m = AccountingRequest()
+                m.header.hop_by_hop_identifier = 0x7700 + i
+                m.header.end_to_end_identifier = 0x7800 + i
+                m.session_id = "late;1"
+                m.origin_host = b"node.example.org"
+                m.origin_realm = b"example.org"
+                m.destination_realm = b"example.org"
+                m.accounting_record_type = 1
+                m.accounting_record_number = 424242
+                nw.node.send_message(conn, m)
+                nw.run()
+                queued[i] = m.as_bytes()
         for sec in range(0, wt + 9):
             # peers react to the DPR they have received
             for i in ready_at_stop:
@@ -103,6 +134,9 @@ def run_case(case, chooser=None, window=None):
                 if reaction == "dpa_now" or (reaction == "dpa_later" and sec >= 1):
                     if sc.apply(("m", idx[i], "dpa")):
                         dpa_time[i] = nw.world.now
+                        if i in queued:
+                            s.fs.send_blocked = False       # the peer reads again
+                            nw.run()
                 elif reaction == "close":
                     sc.apply(("eof", idx[i]))
                     dpa_time[i] = None
@@ -145,6 +179,11 @@ def run_case(case, chooser=None, window=None):
                     vs.append(("shutdown:connection-not-closed-promptly-after-its-DPA", f"{desc}: connection {i} DPA at {dpa_time[i] - t0}, closed at {closes[0][0] - t0}"))
             if i in ready_at_stop and not force and reaction == "never" and closes and closes[0][0] < t0 + wt:
                 vs.append(("shutdown:connection-closed-before-DPA-or-timeout", f"{desc}: connection {i} closed at {closes[0][0] - t0}, timeout {wt}"))
+        # --- output pending behind the DPR is flushed before the connection is closed
+        for i, raw in queued.items():
+            s = sc.socks[idx[i]]
+            if dpa_time.get(i) is not None and raw not in bytes(s.fs.sent):
+                vs.append(("shutdown:connection-closed-after-DPA-before-its-pending-output-was-flushed", f"{desc}: connection {i}"))
         # --- newcomers are closed unserved
         for c in newcomers:
             s = sc.socks[c]
@@ -205,13 +244,17 @@ def all_cases(tier):
                     if force and reaction != "never":
                         continue
                     for wt in (2, 5):
-                        if wt == 5 and n >= 2 and tier != "thorough":
+                        if wt == 5 and n >= 2 and tier != "thorough" and "await_cer" not in states:
                             continue
                         for newcomer_at in (None, 0, 1):
                             for with_lost in (False, True):
                                 if with_lost and newcomer_at is not None:
                                     continue
                                 cases.append((states, reaction, force, wt, newcomer_at, with_lost))
+                        if has_ready and not force and reaction in ("dpa_now", "dpa_later"):
+                            cases.append((states, reaction, force, wt, None, False, "backlog"))
+                        if "await_cer" in states and wt == 5:
+                            cases.append((states, reaction, force, wt, None, False, "late_cer"))
     return cases
 
 
@@ -269,5 +312,5 @@ def replay(case):
     if not c:
         return []
     import ast
-    parsed = (ast.literal_eval(c[0]), c[1], c[2] == "True", int(c[3]), None if c[4] == "None" else int(c[4]), c[5] == "True")
+    parsed = (ast.literal_eval(c[0]), c[1], c[2] == "True", int(c[3]), None if c[4] == "None" else int(c[4]), c[5] == "True") + ((c[6],) if len(c) > 6 else ())
     return [Violation(k, d) for k, d in run_case(parsed)]
